@@ -214,9 +214,18 @@ int main(int argc, char **argv)
     const char *cap = getenv("C31_CAP_HEAVY");
     if (cap) for (unsigned k = 0; k < sizeof(scenarios) / sizeof(scenarios[0]); k++)
         if (!strcmp(scenarios[k].name, "chainsorted_popb_pushsorted") || !strcmp(scenarios[k].name, "chainf_chainb_unchain") || !strncmp(scenarios[k].name, "sort_", 5)) scenarios[k].max_bound = atoi(cap);
-    /* legs: C31_LEG=main -> the 11 scripts without sort||pop, C31_LEG=sort -> the sort||pop scripts, unset -> all (replay) */
+    /* legs: C31_LEG=main -> the 11 scripts without sort||pop, C31_LEG=sort -> the sort||pop scripts, unset -> all (replay).
+     * C31_QUICK=1 keeps the shorter scripts only (the quick tier has to fit in about a minute on a heavily shared machine). */
     const char *leg = getenv("C31_LEG"); int nall = (int)(sizeof(scenarios) / sizeof(scenarios[0]));
-    if (leg && !strcmp(leg, "main")) return cs_main(argc, argv, "C31", scenarios, NMAIN, NULL);
-    if (leg && !strcmp(leg, "sort")) return cs_main(argc, argv, "C31", scenarios + NMAIN, nall - NMAIN, NULL);
+    static const char *slow[] = { "chainsorted_popb_pushsorted", "fifo_chain_trypop_pop", "sort_pushb_pushf", "sort_popb_pushb" };
+    static cs_scenario_t sel[32]; int nsel = 0;
+    for (int k = 0; k < nall; k++) {
+        int is_sort = k >= NMAIN, skip = 0;
+        if (leg && !strcmp(leg, "main") && is_sort) continue;
+        if (leg && !strcmp(leg, "sort") && !is_sort) continue;
+        if (getenv("C31_QUICK")) for (unsigned j = 0; j < sizeof(slow) / sizeof(slow[0]); j++) if (!strcmp(scenarios[k].name, slow[j])) skip = 1;
+        if (!skip) sel[nsel++] = scenarios[k];
+    }
+    if (leg) return cs_main(argc, argv, "C31", sel, nsel, NULL);
     return cs_main(argc, argv, "C31", scenarios, nall, NULL);
 }
